@@ -279,6 +279,9 @@ class SimProcess:
         else:
             ent.log_handlers = []
         ent.tags['boot'] = simos.spawn_boot_steps if flavour == 'spawn' else 0
+        # a forked child inherits the signal mask of the thread that forked it; a spawned child starts with an
+        # empty mask (measured on CPython 3.12: multiprocessing's fork_exec does not carry the mask across)
+        ent.tags['sigint_blocked'] = bool(simos.main_blocked) if flavour == 'fork' else False
         t = find_task((self._args, self._kwargs))
         if t is not None:
             ent.node = getattr(t, 'ident', None)     # lets the fault planner target this worker before run() begins
@@ -516,6 +519,47 @@ class SignalShim:
         sim.ev('sigdisp', 'main', disp)
         return previous
 
+    def pthread_sigmask(self, how, mask):
+        """Signal mask of the calling simulated thread (only SIGINT is modelled).  A blocked SIGINT
+        stays pending and is delivered when it is unblocked (discarded if it is ignored by then)."""
+        so = self._simos
+        sim = so.sim
+        e = sim.me()
+        has = _real_signal.SIGINT in set(mask)
+        if e is not None and e.kind == 'worker':
+            old = {_real_signal.SIGINT} if e.tags.get('sigint_blocked') else set()
+            blocked = bool(e.tags.get('sigint_blocked'))
+            if how == _real_signal.SIG_BLOCK and has:
+                blocked = True
+            elif how == _real_signal.SIG_UNBLOCK and has:
+                blocked = False
+            elif how == _real_signal.SIG_SETMASK:
+                blocked = has
+            e.tags['sigint_blocked'] = blocked
+            if not blocked and e.tags.pop('sigint_pending', False):
+                if e.sigint == 'default':
+                    sim.ev('sigint-child-late', e.name, e.phase)
+                    raise KeyboardInterrupt()
+                sim.ev('sigint-child-discarded', e.name)
+            return old
+        old = {_real_signal.SIGINT} if so.main_blocked else set()
+        blocked = so.main_blocked
+        if how == _real_signal.SIG_BLOCK and has:
+            blocked = True
+        elif how == _real_signal.SIG_UNBLOCK and has:
+            blocked = False
+        elif how == _real_signal.SIG_SETMASK:
+            blocked = has
+        so.main_blocked = blocked
+        if not blocked and so.main_pending_sigint:
+            so.main_pending_sigint = False
+            if so.main_sigint != 'ignore':
+                sim.ev('sigint-unblocked', 'main')
+                if so.on_main_unblocked is not None:
+                    so.on_main_unblocked()
+                raise KeyboardInterrupt()
+        return old
+
     def __getattr__(self, name):
         return getattr(_real_signal, name)
 
@@ -672,6 +716,9 @@ class SimOS:
         self.main_proc = MainProc()
         self.main_sigint = 'default'          # SIGINT disposition of the calling process
         self.main_sigint_handler = _real_signal.default_int_handler
+        self.main_blocked = False             # SIGINT blocked in the calling thread (pthread_sigmask)
+        self.main_pending_sigint = False
+        self.on_main_unblocked = None
         self.fork_memory: Optional[ForkMemoryDict] = None
         self.sink_out = Sink()
         self.sink_err = Sink()
